@@ -77,12 +77,16 @@ func AcquireHPACK() *HPACK {
 	// TODO: Change the name
 	hp := hpackPool.Get().(*HPACK)
 	hp.Reset()
+	verifPool("hpack", hp, true)
 
 	return hp
 }
 
 // ReleaseHPACK puts HPACK to the pool.
 func ReleaseHPACK(hp *HPACK) {
+	if verifPool("hpack", hp, false) {
+		return
+	}
 	hpackPool.Put(hp)
 }
 
